@@ -81,6 +81,13 @@ func H_C09_findBugStep() {
 	checks := nondetInt("checks")
 	assume(bAnd(checks >= -2, checks <= 1<<32)) // stated bound: 10*N must not overflow int
 	outcome := choose("outcome", 3)          // this iteration: 0 pass, 1 skip, 2 fail
+	// clock 0: the deadline is a day away; clock 1: symbolic clock - the early-exit estimate may
+	// trip at any point, but a test case that was run and falsified the property is never dropped
+	clock := 0
+	if cutActive() {
+		clock = choose("clock", 2)
+		symClock(clock == 1)
+	}
 	v0, i0 := nondetInt("valid0"), nondetInt("invalid0")
 	seed0 := nondetU64("seed")
 	inv := func(v, i int) bool {
@@ -136,6 +143,13 @@ func H_C09_findBugStep() {
 		return // too long to drive natively
 	}
 	valid, invalid, early, seed, err := findBug(newVTB("S"), farDeadline(), checks, seed0, prop)
+	if clock == 1 {
+		vassert(!(stepCalls == 1 && outcome == 2 && err == nil), "C02: a test case that falsified the property was dropped (early exit near the deadline)")
+		if early {
+			reach("early-exit")
+			return
+		}
+	}
 	vassert(!early, "C09: findBug stops early (and Check then passes with fewer than N test cases) although the deadline is a day away")
 	if early {
 		return
